@@ -427,7 +427,10 @@ class Interp:
             def inner(e, n):
                 if type(e).__name__ in nonretry or n >= mx:
                     return RetryDecision.no_retry()
-                return RetryDecision.retry(Duration(seconds=delays[(n - 1) % len(delays)]))
+                d_ = Duration(seconds=delays[(n - 1) % len(delays)])
+                if spec.get("direct"):
+                    return RetryDecision(should_retry=True, delay=d_)  # the public dataclass constructor, not the factory
+                return RetryDecision.retry(d_)
         elif kind == "config":
             c = spec["cfg"]
             inner = create_retry_strategy(RetryStrategyConfig(
@@ -460,6 +463,11 @@ class Interp:
             return from_tagged(beh["v"])
         if k == "always_fail":
             raise USER_ERRORS[beh["err"]](beh.get("msg", "always"))
+        if k == "ticket":
+            # a genuinely non-deterministic step (draws a number, reads a clock, calls a service): every execution of
+            # the function yields another value, so a re-execution is visible wherever the value flows
+            n = self.world["ticket"] = self.world.get("ticket", 0) + 1
+            return {"ticket": n}
         if k == "big":
             return beh.get("ch", "x") * beh["n"]
         if k == "raise_sdk":
